@@ -700,8 +700,9 @@ int main(int argc, char** argv) {
               c.viol("harness:classifier-mismatch:" + setStr(s), setStr(s), "analyseSet and analyseRing disagree");
           }
           account(c, s, si);
-          // invalid sequences run under all four termination configurations (length 7: the three without fast path)
-          runSet(c, s, si, s[0].n >= 7 ? 0xE : 0xF);
+          // invalid sequences run under all four termination configurations; length 7 (268M sequences): epsilon -1
+          // and epsilon 1.01, both without the fast path
+          runSet(c, s, si, s[0].n >= 7 ? 0xA : 0xF);
           if (si.valid && idx % 100003 == 0) c.sample(setStr(s));
         },
         CN, level >= 2 ? 25 : 23);
